@@ -142,6 +142,8 @@ def binop(eng, op, a, b):
         return set_binop(eng, op, a, b)
     if isinstance(ta, TSeq) and op == 'Add':
         return seq_concat(eng, a, b)
+    if isinstance(ta, TSeq) and op == 'Mult' and type_of(b) == TInt:
+        return seq_repeat(eng, a, b)
     if isinstance(a, ConcreteList) and isinstance(b, ConcreteList) and op == 'Add':
         return ConcreteList(list(a) + list(b))
     x, y = eng.num(a), eng.num(b)
@@ -239,6 +241,23 @@ def seq_concat(eng, a, b):
     eng.assume(ty.len(r) == la + lb)
     eng.assume(z3.ForAll([i], z3.Implies(z3.And(0 <= i, i < la), ty.at(r, i) == ty.at(ea, i))))
     eng.assume(z3.ForAll([i], z3.Implies(z3.And(0 <= i, i < lb), ty.at(r, la + i) == ty.at(eb, i))))
+    return Box(ty, r)
+
+
+def seq_repeat(eng, a, n):
+    """s * n: len(s) * n elements, element i is s[i mod len(s)]; stated exactly for len(s) == 1 (the only use)."""
+    ty = type_of(a)
+    e = to_z3(a)
+    nv = _int(eng.num(n))
+    r = eng.fresh(ty, 'rep')
+    i = z3.FreshInt('ri')
+    ls = ty.len(e)
+    if eng.check_light(ls != 1) == z3.unsat:
+        eng.assume(ty.len(r) == z3.If(nv > 0, nv, 0))
+        eng.assume(z3.ForAll([i], z3.Implies(z3.And(0 <= i, i < ty.len(r)), ty.at(r, i) == ty.at(e, 0))))
+    else:
+        eng.assume(ty.len(r) == z3.If(nv > 0, ls * nv, 0))
+        eng.assume(z3.ForAll([i], z3.Implies(z3.And(0 <= i, i < ty.len(r)), ty.at(r, i) == ty.at(e, i % ls))))
     return Box(ty, r)
 
 
@@ -417,6 +436,9 @@ def getattr_value(eng, v, attr):
         if attr == 'args':
             return tuple(v.args)
     kind = value_kind(v)
+    h = eng.attr_hooks.get((kind, attr))
+    if h is not None:
+        return h(eng, v)
     m = eng.methods.get((kind, attr))
     if m is not None:
         return Builtin(lambda e, *a, **k: m(e, v, *a, **k), '%s.%s' % (kind, attr))
@@ -1585,7 +1607,10 @@ def comprehension(eng, node, env, kind):
             return new_set(eng, out)
         return new_dict(eng, out)
     if g.ifs:
-        raise EngineError('filtered comprehension over a symbolic sequence')
+        if kind not in ('gen', 'list'):
+            raise EngineError('filtered %s comprehension over a symbolic sequence' % kind)
+        res = filtered_iter(eng, it, g, env, elem)
+        return iter_to_list(eng, res) if kind == 'list' else res
     if kind not in ('gen', 'list'):
         raise EngineError('%s comprehension over a symbolic sequence' % kind)
 
@@ -1601,6 +1626,47 @@ def comprehension(eng, node, env, kind):
     if kind == 'list':
         return iter_to_list(eng, res)
     return res
+
+def filtered_iter(eng, it, g, env, elem):
+    """(elem for x in S if p(x)) over a symbolic S: the selected elements in order.  Modelled by an increasing index
+    map ix: [0, L) -> [0, n) onto the positions where p holds, with inverse rk (no existential quantifier).  The
+    functions are named by the contract's `filters` table (condition source -> name) so that specifications can refer
+    to them as <name>_ix / <name>_rk / <name>_len; p must be a pure function of the element."""
+    cond_src = ' and '.join(ast.unparse(c) for c in g.ifs)
+    name = eng.filters.get(cond_src)
+    if name is None:
+        eng.fresh_n += 1
+        name = 'filt%d' % eng.fresh_n
+    ix = eng.uf(name + '_ix', [TInt], TInt)
+    rk = eng.uf(name + '_rk', [TInt], TInt)
+    L = z3.Int(name + '_len')
+    n = _int(it.n)
+
+    def p(i):
+        sub = Env(env, {})
+        eng.assign(g.target, it.get(i), sub)
+        eng.spec += 1
+        try:
+            return eng._b(eng.And(*[eng.truth(eng.eval(c, sub)) for c in g.ifs]))
+        finally:
+            eng.spec -= 1
+    a, b, i = z3.FreshInt('fa'), z3.FreshInt('fb'), z3.FreshInt('fi')
+    eng.assume(z3.And(0 <= L, L <= n))
+    eng.assume(z3.ForAll([a], z3.Implies(z3.And(0 <= a, a < L), z3.And(0 <= ix(a), ix(a) < n, p(ix(a)), rk(ix(a)) == a))))
+    eng.assume(z3.ForAll([a, b], z3.Implies(z3.And(0 <= a, a < b, b < L), ix(a) < ix(b))))
+    eng.assume(z3.ForAll([i], z3.Implies(z3.And(0 <= i, i < n, p(i)), z3.And(0 <= rk(i), rk(i) < L, ix(rk(i)) == i))))
+
+    def get(k):
+        sub = Env(env, {})
+        eng.assign(g.target, it.get(ix(_int(k))), sub)
+        eng.spec += 1
+        try:
+            return elem(sub)
+        finally:
+            eng.spec -= 1
+    r = IterV(L, get)
+    r.lazy_ok = True
+    return r
 
 # ---------------------------------------------------------------------------------- model read-back
 
